@@ -131,6 +131,21 @@ def run(ctx):
     if len(chk.params) < 2:
         raise AnalysisError("C09: check_issuer_has_subject_permissions lost its issuer parameter")
     subj_p, iss_p = chk.params[0], chk.params[1]
+    # the list of needed permissions only holds EXPLICIT psids: a subject that claims to issue "all" has to be refused unless
+    # its issuer may issue all - on every path that can answer True
+    bad_all = []
+    for r in [n for n in ast.walk(chk.node) if isinstance(n, ast.Return) and n.value is not None]:
+        if isinstance(r.value, ast.Constant) and r.value.value in (False, None):
+            continue
+        for pc in sem.path_conditions(chk.node, r, kill_rebound=False):
+            if f"truthy({iss_p}.certificate_has_all_permissions())" in pc or f"!truthy({subj_p}.certificate_has_all_permissions())" in pc:
+                continue
+            bad_all.append(r.lineno)
+    ctx.ob("C09.verify-conjuncts", chk.short(), "all-claim-needs-all-issuer", not bad_all,
+           "a subject claiming to issue 'all' is covered only by an issuer that may issue all" if not bad_all else
+           f"the containment check can answer True (line {bad_all[0]}) for a subject whose certIssuePermissions say 'all' under an issuer with "
+           "explicit issuing permissions only: the needed-permission list holds explicit PSIDs, so the 'all' claim is never compared",
+           chk.loc)
     for j, (k, s, st) in enumerate([e for e in fl.exits if e[0] == "return"]):
         x = SU.peel(SU.expand_safe(fl, s.value, st)) if s.value is not None else ast.Constant(None)
         c = P.try_fold(chk.module, x, default="<nc>")
